@@ -142,6 +142,22 @@ func overlapWorks() []overlapWork {
 			err := holeFont(false).Write(w, &type1.WriterOptions{Format: type1.FormatNoEExec})
 			return fmt.Sprintf("%x err=%v", w.buf, err)
 		}},
+		// outlines with fractional coordinates (the encoder's quotient search)
+		{"Font.Write(fractional outlines)", nil, 0, func(_ io.Reader, yield func()) string {
+			f := holeFont(true)
+			k := 0.0
+			for _, nm := range []string{"A", "B"} {
+				g := f.NewGlyph(nm, 500.5)
+				g.MoveTo(0.1+k, 0.25)
+				g.LineTo(100.37+k, 1.0/3)
+				g.CurveTo(120.5, 30.125+k, 90.0625, 200.2, 50.7+k, 300.9)
+				g.ClosePath()
+				k += 0.13
+			}
+			w := &yieldWriter{yield: yield, every: 12}
+			err := f.Write(w, &type1.WriterOptions{Format: type1.FormatPFA})
+			return fmt.Sprintf("%x err=%v", w.buf, err)
+		}},
 		{"Font.WritePDF", nil, 0, func(_ io.Reader, yield func()) string {
 			w := &yieldWriter{yield: yield, every: 12}
 			l1, l2, err := corpus.SampleFont().WritePDF(w)
@@ -245,7 +261,7 @@ func overlapFamily(preempt int, allHist bool, budget time.Duration) mc.Family {
 	var solo []string
 	return mc.Family{
 		Name: "overlapping-executions", Items: len(pairs), MaxDev: preempt, Budget: budget,
-		Rule: fmt.Sprintf("%d items = unordered pairs (incl. twice the same) of %d calls {2 raw programs, 2 eexec programs, type1.Read of a PFA and of a clear-text font, ReadCMap | Font.Write with default options / PFB / clear text, two fonts that differ at a hole of the standard encoding, Font.WritePDF, Metrics.Write, afm.Read, PFB decoding, 8 name look-ups} on distinct instances in 2 goroutines x histories {none, one eexec program, two eexec programs and a font, font + CMap + failing program, every writer and the remaining readers} (pairs of the first seven after every history, the others after three of them%s); inputs arrive in chunks through readers, output leaves through writers (every 6th/12th call), look-ups are separated by explicit points: each is a scheduling point before and after the data moves; every interleaving with <= %d preemptions (first thread free); oracle: both results equal the results of the same calls running alone, and no two accesses to a package-level variable of the library, a lock-guarded field or a map in a package with locks, one of them a write, are unordered by happens-before (vector clocks over every hooked access; hooks generated from the typed AST: build/gen-c18-sites.json); the sync shim's Pool is a deterministic LIFO (a legal sync.Pool); non-trivial = every execution (both threads run)", len(pairs), len(ws), map[bool]string{true: "; thorough: all five", false: ""}[allHist], preempt),
+		Rule: fmt.Sprintf("%d items = unordered pairs (incl. twice the same) of %d calls {2 raw programs, 2 eexec programs, type1.Read of a PFA and of a clear-text font, ReadCMap | Font.Write with default options / PFB / clear text, two fonts that differ at a hole of the standard encoding, a font with fractional outlines, Font.WritePDF, Metrics.Write, afm.Read, PFB decoding, 8 name look-ups} on distinct instances in 2 goroutines x histories {none, one eexec program, two eexec programs and a font, font + CMap + failing program, every writer and the remaining readers} (pairs of the first seven after every history, the others after three of them%s); inputs arrive in chunks through readers, output leaves through writers (every 6th/12th call), look-ups are separated by explicit points: each is a scheduling point before and after the data moves; every interleaving with <= %d preemptions (first thread free); oracle: both results equal the results of the same calls running alone, and no two accesses to a package-level variable of the library, a lock-guarded field or a map in a package with locks, one of them a write, are unordered by happens-before (vector clocks over every hooked access; hooks generated from the typed AST: build/gen-c18-sites.json); the sync shim's Pool is a deterministic LIFO (a legal sync.Pool); non-trivial = every execution (both threads run)", len(pairs), len(ws), map[bool]string{true: "; thorough: all five", false: ""}[allHist], preempt),
 		Body: func(c *mc.Ctx, item int) mc.Verdict {
 			if solo == nil {
 				for _, w := range ws {
